@@ -347,6 +347,9 @@ class WriteRun:
         self.tov.register_task("token_maintenance", self.rotate_hook, interval=300)
         self.tov.cancel_pending_task("value_maintenance")
         self.tov.register_task("value_maintenance", self.maint_hook, interval=3600)
+        if self.variant == "discovery":
+            # T announcing itself (and then pinging its hosts every 25 s) is client traffic that no clause looks at
+            self.tov.cancel_pending_task("store_peer")
         self.R = [Node(self.net, 1), Node(self.net, 2), Node(self.net, 3), Node(self.net, 4, key_index=1)]
         self.O = Node(self.net, 5)
         for n in [*self.R, self.O]:
@@ -1253,72 +1256,200 @@ def _exhaustive_storage(ctx: Ctx, shard: int, nshards: int, depth: int) -> None:
 # strategies
 # ======================================================================================================
 
+GOOD_VALUES = ([["u", seed, n] for seed in (0, 1) for n in (0, 5)] + [["u", 2, 1], ["u", 3, 169]]
+               + [["s", s_, v, seed] for s_ in range(3) for v in VERSIONS for seed in (0, 1)]
+               + [["s", 0, v, seed] for v in (0, 1, 2, 3) for seed in (0, 1, 2)]
+               + [["t", s_, 0] for s_ in range(3)] + [["sbig", 0, 1, 23], ["sbig", 1, 3, 23]])
+FORGED_VALUES = [["f", how, s_, v, 0] for how in ("flipdata", "bumpversion", "foreignpk", "badsig", "zerosig", "truncated")
+                 for s_ in (0, 1) for v in (1, 2 ** 32 - 1)]
+GARBAGE_VALUES = [["g", w] for w in ("empty", "type2", "short", "type1junk", "badkey")]
+BIG_VALUES = [["u", 0, 170], ["u", 1, 300], ["sbig", 0, 1, 24]]
+
+
 def _value_specs():
     from hypothesis import strategies as st
-    signer = st.integers(0, 2)
-    ver = st.sampled_from(VERSIONS)
-    seed = st.integers(0, 2)
-    good = st.one_of(
-        st.tuples(st.just("u"), st.integers(0, 3), st.sampled_from([0, 1, 5, 5, 169])).map(list),
-        st.tuples(st.just("s"), signer, ver, seed).map(list),
-        st.tuples(st.just("s"), signer, ver, seed).map(list),
-        st.tuples(st.just("s"), st.just(0), st.integers(0, 3), seed).map(list),
-        st.tuples(st.just("t"), signer, seed).map(list),
-        st.tuples(st.just("sbig"), signer, ver, st.just(23)).map(list),
-    )
-    forged = st.tuples(st.just("f"), st.sampled_from(["flipdata", "bumpversion", "foreignpk", "badsig", "zerosig",
-                                                      "truncated"]), signer, ver, seed).map(list)
-    garbage = st.tuples(st.just("g"), st.sampled_from(["empty", "type2", "short", "type1junk", "badkey"])).map(list)
-    big = st.one_of(st.tuples(st.just("u"), st.integers(0, 3), st.sampled_from([170, 300])).map(list),
-                    st.tuples(st.just("sbig"), signer, ver, st.just(24)).map(list))
-    return good, forged, garbage, big
+    return (st.sampled_from(GOOD_VALUES), st.sampled_from(FORGED_VALUES), st.sampled_from(GARBAGE_VALUES),
+            st.sampled_from(BIG_VALUES))
+
+
+def _pick(rng: Any, weighted: list) -> Any:
+    total = sum(w for w, _ in weighted)
+    x = rng.random() * total
+    for w, item in weighted:
+        x -= w
+        if x < 0:
+            return item
+    return weighted[-1][1]
+
+
+def expand_write(seed: int, n_ops: int, variant: str, warm: bool, grow: int) -> dict:
+    """
+    The op list of a write case, expanded deterministically from Hypothesis-drawn parameters (a flat Hypothesis list
+    strategy yields mostly 4-10 ops with few stores). The case that is recorded and replayed is the explicit list.
+    """
+    import random
+    rng = random.Random(seed)
+    focus_key = _pick(rng, [(4, 1), (3, 2), (1, 0), (2, 3)])
+    kinds = [(45, "store"), (6, "find"), (8 if variant == "discovery" else 2, "store_peer"), (8, "rotate"),
+             (14, "advance"), (8, "maintain"), (4, "grow"), (7, "lookup")]
+
+    def ident() -> tuple:
+        return rng.choice(HOMES) if rng.random() < 0.75 else (rng.randrange(3), rng.randrange(4))
+
+    def tcls() -> str:
+        return _pick(rng, [(45, "fresh"), (15, "prev"), (8, "old"), (8, "otherkey"), (8, "otherkey_sameaddr"),
+                           (8, "otheraddr"), (8, "random")])
+
+    def key() -> int:
+        return focus_key if rng.random() < 0.6 else rng.randrange(4)
+
+    def values() -> list:
+        shape = _pick(rng, [(50, "good"), (18, "mixed"), (8, "many"), (8, "big"), (8, "toomany"), (4, "empty"),
+                            (4, "toomany_small")])
+        good = lambda: rng.choice(GOOD_VALUES)   # noqa: E731
+        if shape == "good":
+            return [good() for _ in range(rng.randint(1, 4))]
+        if shape == "mixed":
+            return [_pick(rng, [(2, good), (2, lambda: rng.choice(FORGED_VALUES)),
+                                (1, lambda: rng.choice(GARBAGE_VALUES))])() for _ in range(rng.randint(1, 4))]
+        if shape == "many":
+            return [good() for _ in range(rng.randint(5, 8))]
+        if shape == "big":
+            out = [good() for _ in range(rng.randint(0, 2))]
+            out.insert(rng.randint(0, len(out)), rng.choice(BIG_VALUES))
+            return out
+        if shape == "toomany":
+            return [good() for _ in range(rng.randint(9, 10))]
+        if shape == "toomany_small":
+            return [["u", rng.randrange(4), 5] for _ in range(9)]
+        return []
+
+    def scenario() -> list:
+        """
+        Short directed openings (parameters drawn): the situations the non-triviality rule names.
+        """
+        k, a = rng.choice(HOMES)
+        k2, a2 = rng.choice(HOMES)
+        gaps = [899.9, 1801.1, 3599.3, 301.1, 31.3]
+        which = rng.randrange(4)
+        if which == 0:      # a signer refreshes the value filed under its own key hash while other values age there
+            return [["store", k, a, "fresh", 0, 1, 2, [rng.choice(GOOD_VALUES) for _ in range(rng.randint(1, 3))]],
+                    ["advance", rng.choice(gaps)],
+                    ["store", k2, a2, "fresh", 0, 1, 2, [["s", 0, rng.choice([1, 2, 3]), rng.randrange(2)]]],
+                    ["advance", rng.choice(gaps)], ["maintain"]]
+        if which == 1:      # T learns more nodes between two stores at a far key: the later value lives shorter
+            return [["store", k, a, "fresh", 0, 1, 1, [rng.choice(GOOD_VALUES)]], ["grow", rng.randint(1, 3)],
+                    ["store", k2, a2, "fresh", 0, 1, 1, [rng.choice(GOOD_VALUES) for _ in range(rng.randint(1, 2))]],
+                    ["advance", rng.choice(gaps + [901.3, 601.7])], ["maintain"]]
+        if which == 2:      # version race of one signer under one key, different writers
+            s_, kk = rng.randrange(3), key()
+            vs = [rng.choice(VERSIONS) for _ in range(3)]
+            return [["store", k, a, "fresh", 0, 1, kk, [["s", s_, vs[0], 0]]],
+                    ["store", k2, a2, rng.choice(["fresh", "prev"]), 0, 1, kk, [["s", s_, vs[1], 1]]],
+                    ["store", k, a, "fresh", 0, 1, kk, [["s", s_, vs[2], 2], ["s", s_, vs[0], 1]]], ["lookup", kk]]
+        # a token carried across rotations
+        return [["find", k, a, 3, 0], ["rotate"], ["store", k, a, "fresh", 0, 0, key(), [rng.choice(GOOD_VALUES)]],
+                ["rotate"], ["store", k, a, "fresh", 0, 0, key(), [rng.choice(GOOD_VALUES)]]]
+
+    ops: list = []
+    n_scen = _pick(rng, [(5, 0), (3, 1), (2, 2)])
+    for _ in range(n_scen):
+        ops += scenario()
+    for _ in range(n_ops):
+        kind = _pick(rng, kinds)
+        if kind == "store":
+            k, a = ident()
+            ops.append(["store", k, a, tcls(), 0 if rng.random() < 0.8 else rng.randint(1, 2),
+                        1 if rng.random() < 0.85 else 0, key(), values()])
+        elif kind == "find":
+            k, a = ident()
+            ops.append(["find", k, a, key(), rng.randrange(2)])
+        elif kind == "store_peer":
+            k, a = ident()
+            ops.append(["store_peer", k, a, tcls(), 0, 1 if rng.random() < 0.85 else 0, _pick(rng, [(3, 0), (1, 1), (1, 2)])])
+        elif kind == "advance":
+            ops.append(["advance", rng.choice(ADVANCES)])
+        elif kind == "grow":
+            ops.append(["grow", rng.randint(1, 4)])
+        elif kind == "lookup":
+            ops.append(["lookup", key()])
+        else:
+            ops.append([kind])
+        if n_scen and rng.random() < 0.04:
+            ops += scenario()
+    return {"kind": "write", "variant": variant, "warm": bool(warm), "grow": grow, "ops": ops}
 
 
 def _write_strategy(max_ops: int):
     from hypothesis import strategies as st
-    good, forged, garbage, big = _value_specs()
-    ident = st.one_of(st.sampled_from(HOMES), st.sampled_from(HOMES), st.sampled_from(HOMES),
-                      st.tuples(st.integers(0, 2), st.integers(0, 3))).map(list)
-    mixed = st.one_of(good, good, forged, forged, garbage)
-    some_good = st.lists(good, min_size=1, max_size=4)
-    values = st.one_of(some_good, some_good, some_good, some_good, some_good,
-                       st.lists(mixed, min_size=1, max_size=4), st.lists(mixed, min_size=1, max_size=4),
-                       st.lists(good, min_size=0, max_size=8),
-                       st.tuples(st.lists(good, max_size=2), big).map(lambda t: [*t[0], t[1]]),
-                       st.lists(good, min_size=9, max_size=10),
-                       st.lists(st.tuples(st.just("u"), st.integers(0, 3), st.just(5)).map(list), min_size=9,
-                                max_size=9))
-    tcls = st.sampled_from(TOKEN_CLASSES + ["fresh", "fresh", "fresh", "fresh", "prev", "prev"])
-    key = st.integers(0, 3)
-    find = st.tuples(st.just("find"), ident, key, st.integers(0, 1)).map(lambda t: ["find", t[1][0], t[1][1], t[2], t[3]])
-    arrange = st.sampled_from([1, 1, 1, 1, 1, 0])
-    store = st.tuples(ident, tcls, st.integers(0, 2), arrange, key, values).map(
-        lambda t: ["store", t[0][0], t[0][1], t[1], t[2], t[3], t[4], t[5]])
-    store_peer = st.tuples(ident, tcls, st.integers(0, 2), arrange, st.sampled_from([0, 0, 0, 1, 2])).map(
-        lambda t: ["store_peer", t[0][0], t[0][1], t[1], t[2], t[3], t[4]])
-    op = st.one_of(find, find, find, store, store, store, store, store, store, store_peer,
-                   st.just(["rotate"]), st.just(["rotate"]),
-                   st.sampled_from(ADVANCES).map(lambda d: ["advance", d]),
-                   st.sampled_from(ADVANCES).map(lambda d: ["advance", d]),
-                   st.sampled_from(ADVANCES[:7]).map(lambda d: ["advance", d]),
-                   st.just(["maintain"]), st.just(["maintain"]),
-                   st.integers(1, 4).map(lambda n: ["grow", n]),
-                   key.map(lambda k: ["lookup", k]))
-    return st.fixed_dictionaries({
-        "kind": st.just("write"),
-        "variant": st.sampled_from(["dht", "dht", "discovery"]),
-        "warm": st.booleans(),
-        "grow": st.sampled_from([0, 0, 6, 7, 8]),
-        "ops": st.lists(op, min_size=4, max_size=max_ops),
-    })
+    return st.tuples(st.integers(0, 2 ** 32 - 1), st.integers(3, max_ops), st.sampled_from(["dht", "dht", "discovery"]),
+                     st.sampled_from([True, True, True, False]), st.sampled_from([0, 0, 2, 3, 4, 6])
+                     ).map(lambda t: expand_write(*t))
+
+
+_MINIMISED: set = set()
+
+
+def minimise_write(case: dict, v: Violation, budget: int = 120) -> Violation:
+    """
+    Greedy one-at-a-time removal of ops (then of values inside store ops) that keeps the same signature.
+    """
+    best, best_v = case, v
+    runs = 0
+
+    def still(c: dict) -> Violation | None:
+        nonlocal runs
+        runs += 1
+        try:
+            write_case(None, c)
+        except Violation as w:
+            return w if w.sig == v.sig else None
+        return None
+
+    i = len(best["ops"]) - 1
+    while i >= 0 and runs < budget:
+        cand = dict(best, ops=best["ops"][:i] + best["ops"][i + 1:])
+        w = still(cand)
+        if w is not None:
+            best, best_v = cand, w
+        i -= 1
+    for field, val in (("grow", 0), ("warm", False)):
+        if best[field] != val and runs < budget:
+            cand = dict(best, **{field: val})
+            w = still(cand)
+            if w is not None:
+                best, best_v = cand, w
+    for i, op in enumerate(best["ops"]):
+        if op[0] != "store":
+            continue
+        j = len(op[7]) - 1
+        while j >= 0 and runs < budget:
+            cur = best["ops"][i]
+            cand_op = [*cur[:7], cur[7][:j] + cur[7][j + 1:]]
+            cand = dict(best, ops=best["ops"][:i] + [cand_op] + best["ops"][i + 1:])
+            w = still(cand)
+            if w is not None:
+                best, best_v = cand, w
+            j -= 1
+    return best_v
+
+
+def write_body(ctx: Ctx, case: dict) -> None:
+    try:
+        write_case(ctx, case)
+    except Violation as v:
+        if v.sig not in _MINIMISED:
+            _MINIMISED.add(v.sig)
+            v = minimise_write(case, v)
+        raise v
 
 
 def _read_strategy():
     from hypothesis import strategies as st
     _, forged, garbage, _ = _value_specs()
-    signed = st.tuples(st.just("s"), st.integers(0, 1), st.sampled_from(VERSIONS), st.integers(0, 2)).map(list)
-    unsigned = st.tuples(st.just("u"), st.integers(0, 3), st.sampled_from([0, 1, 5])).map(list)
-    quiet_garbage = st.tuples(st.just("g"), st.just("type2")).map(list)      # skipped by the decoder without raising
+    signed = st.sampled_from([["s", s_, v, seed] for s_ in (0, 1) for v in VERSIONS for seed in (0, 1, 2)])
+    unsigned = st.sampled_from([["u", seed, n] for seed in (0, 1, 2, 3) for n in (0, 1, 5)])
+    quiet_garbage = st.just(["g", "type2"])      # skipped by the decoder without raising
     value = st.one_of(signed, signed, signed, signed, unsigned, forged, forged, quiet_garbage)
     loud = st.one_of(signed, signed, forged, garbage)
     server = st.fixed_dictionaries({"direct": st.sampled_from([True, True, False]),
@@ -1354,12 +1485,12 @@ def _shard(ctx: Ctx, shard: int, nshards: int, n_write: int, n_read: int, n_stor
     _exhaustive_storage(ctx, shard, nshards, depth)
     hyp_run(ctx, "storage", _storage_strategy(), lambda c: storage_hyp_case(ctx, c), n_storage)
     hyp_run(ctx, "read", _read_strategy(), lambda c: read_case(ctx, c), n_read)
-    hyp_run(ctx, "write", _write_strategy(max_ops), lambda c: write_case(ctx, c), n_write, shrink_examples=150)
+    hyp_run(ctx, "write", _write_strategy(max_ops), lambda c: write_body(ctx, c), n_write, shrink_examples=6)
 
 
 def run(ctx: Ctx) -> None:
     if ctx.quick:
-        shard_run(ctx, _shard, extra=(64, 120, 300, 40, 5))
+        shard_run(ctx, _shard, extra=(48, 120, 300, 40, 5))
     else:
         shard_run(ctx, _shard, extra=(900, 1500, 5000, 70, 6))
 
